@@ -425,6 +425,9 @@ func runC16Doc(c *fw.Ctx, tag string, d *result.Results, r *rand.Rand) {
 			break
 		}
 	}
+	// ... and finishing twice leaves the document as self-consistent as finishing once (statistics are recomputed from
+	// the samples, not accumulated onto what the document already says)
+	checkDoc(c, tag+" (second Normalize on the finished document)", again, false)
 	// the finished document of a request with private-hop skipping: still self-consistent
 	red := cloneDoc(d)
 	red.TestRunID = d.TestRunID
